@@ -78,6 +78,10 @@ class Widths:
                 elif _lambda_obj(e.func.body) and _lambda_obj(e.func.orelse):
                     r.always_obj = True
                 return r
+            if isinstance(e.func, ast.Lambda) and len(e.args) == 1 and len(e.func.args.args) == 1 and not e.keywords \
+                    and not e.func.args.vararg and not e.func.args.kwarg and not e.func.args.defaults:
+                from ..paths import subst as _subst
+                return self.an(_subst(e.func.body, {e.func.args.args[0].arg: e.args[0]}))      # (lambda m: E)(a) is E[a/m]
             fn = dotted(e.func)
             if fn in ("np.array", "np.asarray") and e.args:
                 r = self.an(e.args[0])
